@@ -88,6 +88,7 @@ func c13Gen(t *rapid.T) c13Case {
 		}
 		return r
 	}
+	var dirLinkNames []string
 	nLinks := rapid.IntRange(0, 4).Draw(t, "nlinks")
 	for i := 0; i < nLinks; i++ {
 		d := rapid.SampledFrom(existingDirs()).Draw(t, "linkdir")
@@ -106,6 +107,7 @@ func c13Gen(t *rapid.T) c13Case {
 				target = rel(name, to)
 			}
 		case 3, 4, 5: // directory symlink
+			dirLinkNames = append(dirLinkNames, name)
 			ds := existingDirs()
 			to := rapid.SampledFrom(ds).Draw(t, "linktodir")
 			if to == "" {
@@ -181,7 +183,26 @@ func c13Gen(t *rapid.T) c13Case {
 	c.Opts.Normalize = rapid.Bool().Draw(t, "normalize")
 	c.Opts.FollowDir = rapid.Bool().Draw(t, "followdirs")
 	c.Opts.Excludes = rapid.SampledFrom([][]string{nil, nil, {"*.skip"}, {"ignored.txt"}, {"*.skip", "ignored.txt"}}).Draw(t, "excludes")
-	c.Opts.Strips = rapid.SampledFrom([][]string{nil, nil, {"sub/"}, {"sub"}, {"@ROOT@/"}, {"@ROOT@"}, {"a/", "b/"}, {"sub/deep/", "sub/"}, {"other/", "sub/"}, {"sub/", "deep/"}, {"sub/", "deep/", "er/"}, {"@ROOT@/", "sub/"}}).Draw(t, "strips")
+	c.Opts.Strips = rapid.SampledFrom([][]string{nil, nil, {"sub/"}, {"sub"}, {"@ROOT@/"}, {"@ROOT@"}, {"a/", "b/"}, {"sub/deep/", "sub/"}, {"other/", "sub/"}, {"sub/", "deep/"}, {"sub/", "deep/", "er/"}, {"@ROOT@/", "sub/"},
+		// prefixes that reach into (or through) what may be a followed directory link
+		{"l1/"}, {"lnk/"}, {"zl/", "l2/"}, {"sub/l1/"}, {"l1/deep/"}, {"@ROOT@/lnk/"}, {"x/", "sub/x/"}}).Draw(t, "strips")
+	if rapid.IntRange(0, 7).Draw(t, "distlink") == 0 {
+		// a build output directory that is a link to the real one, recorded with a prefix that ends in or below it
+		c.Nodes = append(c.Nodes, hx.TNode{Path: "tgtdir", Kind: "dir"}, hx.TNode{Path: "tgtdir/deep", Kind: "dir"},
+			hx.TNode{Path: "tgtdir/in.txt", Kind: "file", Content: "in\n"}, hx.TNode{Path: "tgtdir/deep/in2.txt", Kind: "file", Content: "in2\r\n"},
+			hx.TNode{Path: "dl", Kind: "symlink", Target: rapid.SampledFrom([]string{"tgtdir", "@ROOT@/tgtdir", "./tgtdir/"}).Draw(t, "dltarget")})
+		c.Opts.FollowDir = rapid.IntRange(0, 3).Draw(t, "dlfollow") > 0
+		c.Opts.Paths = [][]string{{"dl"}, {"."}, {"@ROOT@/dl"}, {"dl", "tgtdir"}}[rapid.IntRange(0, 3).Draw(t, "dlpaths")]
+		c.Opts.Strips = [][]string{{"dl/"}, {"dl/deep/"}, {"@ROOT@/dl/"}, {"dl"}, {"dl/", "tgtdir/"}, {"tgtdir/"}, nil}[rapid.IntRange(0, 6).Draw(t, "dlstrips")]
+	} else if len(dirLinkNames) > 0 && rapid.IntRange(0, 2).Draw(t, "stripthroughlink") == 0 {
+		// the prefix to strip ends at, or below, a directory link that is followed
+		l := rapid.SampledFrom(dirLinkNames).Draw(t, "striplink")
+		c.Opts.FollowDir = true
+		c.Opts.Strips = [][]string{{l + "/"}, {"@ROOT@/" + l + "/"}, {l + "/deep/"}, {l + "/sub/"}, {l}}[rapid.IntRange(0, 4).Draw(t, "stripform")]
+		if rapid.Bool().Draw(t, "recordthelink") && !strings.Contains(l, "/") {
+			c.Opts.Paths = []string{l}
+		}
+	}
 	if rapid.IntRange(0, 9).Draw(t, "twins") == 0 {
 		// two different files with the same content whose names collide once the prefixes are stripped
 		content := rapid.SampledFrom([]string{"", "same bytes\n"}).Draw(t, "twincontent")
@@ -349,6 +370,18 @@ func c13Run(c c13Case, r *hx.Rec) error {
 
 	want, werr := hx.RefRecord(o)
 	r.Label("ref_error=%v", werr != nil)
+	if o.FollowDir && werr == nil && len(want) > 0 {
+		for _, n := range c.Nodes {
+			if n.Kind != "symlink" {
+				continue
+			}
+			for _, st := range c.Opts.Strips {
+				if strings.HasPrefix(strings.TrimPrefix(st, "@ROOT@/"), n.Path+"/") {
+					r.Label("strip-prefix-reaches-through-a-link")
+				}
+			}
+		}
+	}
 	if werr == hx.ErrRefCycle {
 		r.Label("cycle")
 	}
